@@ -165,6 +165,6 @@ int qsx_ratio_commands (const char *c)
 		QSexact_set_precision ((unsigned) prec);
 		ratio_d2_mpf ();
 	}
-	else return 0;
+	else { extern int qsx_symtab_commands (const char *c); return qsx_symtab_commands (c); }
 	return 1;
 }
